@@ -2,7 +2,7 @@
 """Generates engines/coro/selftest.json: each mutant is a textual replacement in the hooked tree (/repo + hooks.patch), recorded as a
 unified diff relative to that tree."""
 import json, os, subprocess, sys
-WT = sys.argv[1] if len(sys.argv) > 1 else "/tmp/wt_coro2"      # the tree with hooks.patch applied
+WT = sys.argv[1] if len(sys.argv) > 1 else "/repo"      # a tree with hooks.patch applied (read-only here)
 here = os.path.dirname(os.path.abspath(__file__))
 M = []
 def mut(name, expect, what, *edits):
@@ -125,6 +125,15 @@ mut("race_callback_not_destroyed", "violation", "complete_and_choose_continuatio
     callback_.destruct();
 """, """    UNIFEX_VERIF_YIELD("coro.sr.fin_destruct");
 """))
+# ---- defects of the kind seeded in the evaluation rounds (C11-2, C20-2)
+mut("hop_back_not_armed_after_same_ctx_hop", "violation", "co_await schedule(current scheduler) latches rescheduled_ without installing the hop-back cleanup",
+    ("source/task.cpp", """  if (!std::exchange(this->rescheduled_, true)) {""", """  if (!std::exchange(this->rescheduled_, true) && newSched != this->sched_) {"""))
+mut("awaitable_wrapper_reactivates_on_null_root", "violation", "_awaitable_wrapper's bool await_suspend path re-activates the async stack frame on the (already nulled) frame root",
+    (TR, """      activateAsyncStackFrame(*root, *frame);
+
+      // proactively destroy the unneeded coro_resumer""", """      activateAsyncStackFrame(*frame->getStackRoot(), *frame);
+
+      // proactively destroy the unneeded coro_resumer"""))
 mut("benign_comment_and_reorder", "clean", "comment edits and a reordering of two independent statements in the task awaiter",
     (TK, """      auto& promise = thisCoro.promise();
       promise.continuation_ = h;""", """      auto& promise = thisCoro.promise();
